@@ -13,6 +13,9 @@ Checked:
  F3  write() after loseConnection() but before the connection is gone still reaches the peer;
  F4  descriptors queued with sendFileDescriptor() arrive via fileDescriptorReceived() before
      the dataReceived() of the bytes they were sent with, in order;
+ F6  abortConnection() does not set `disconnecting`, the aborting side gets no further
+     dataReceived and its connectionLost(ConnectionAborted) comes from a later reactor iteration;
+     callLater() refuses a negative delay;
  F5  a real DBusClientConnection attaches to the real Bus over a UNIX socketpair (EXTERNAL or
      ANONYMOUS, NEGOTIATE_UNIX_FD answered with ERROR), says Hello, acquires a name and calls
      GetNameOwner - the same conversation the simulation runs.
@@ -147,6 +150,27 @@ def scenario():
     note('F4 descriptor k arrives no later than the read containing byte k of its write', ok4 and nfd == 2,
          repr(seq))
     a.transport.loseConnection()
+    # ---- F6
+    log = []
+    a, b = Rec('a', log), Rec('b', log)
+    pair(a, b)
+    yield sleep(0.05)
+    b.transport.abortConnection()
+    flag = getattr(b.transport, 'disconnecting', None)
+    lost_now = [e for e in log if e[0] == 'b' and e[1] == 'lost']
+    a.transport.write(b'after-abort')
+    yield sleep(0.3)
+    lost_b = [e for e in log if e[0] == 'b' and e[1] == 'lost']
+    data_b = [e for e in log if e[0] == 'b' and e[1] == 'data']
+    note('F6 abortConnection() leaves `disconnecting` unset', not flag, repr(flag))
+    note('F6 connectionLost(ConnectionAborted) comes later, once; nothing is read after the abort',
+         not lost_now and len(lost_b) == 1 and lost_b[0][2] == 'ConnectionAborted' and not data_b,
+         repr((lost_now, lost_b, data_b)))
+    try:
+        reactor.callLater(-1, lambda: None)
+        note('F6 callLater refuses a negative delay', False)
+    except AssertionError:
+        note('F6 callLater refuses a negative delay', True)
     # ---- F5
     from txdbus import bus as t_bus, client as t_client
     import txdbus.protocol as t_proto
